@@ -68,6 +68,27 @@ func (env *SEnv) EvalBool(e *SExpr) (t Term, err error) {
 	return v.T, nil
 }
 
+// EvalInt evaluates an integer-valued (or boolean, read as 0/1) specification expression.
+func (env *SEnv) EvalInt(e *SExpr) (t Term, err error) {
+	defer func() {
+		if r := recover(); r != nil {
+			if ee, ok := r.(evalErr); ok {
+				err = fmt.Errorf("%s", string(ee))
+				return
+			}
+			panic(r)
+		}
+	}()
+	v := env.eval(e)
+	switch v.T.Sort {
+	case SInt:
+		return v.T, nil
+	case SBool:
+		return Ite(v.T, IntLit(1), IntLit(0)), nil
+	}
+	return Term{}, fmt.Errorf("measure is not an integer (sort %s)", v.T.Sort)
+}
+
 func (env *SEnv) value(v *SVal) *SVal {
 	// force load of a place
 	if v.T.S == "" && v.HasAddr {
